@@ -284,6 +284,30 @@ func init() {
 			}
 			return m.appendOp(a[0].(Slice), s, byteAppendSite{})
 		},
+		"sort.SliceStable": func(m *Machine, c *frame, a []value) value {
+			// a stable sort has a unique result (for a strict weak order): insertion sort computes it
+			sl := a[0].(Iface).v.(Slice)
+			less := a[1]
+			n := m.concLen(sl.len, "sort.SliceStable len")
+			for i := 1; i < n; i++ {
+				for j := i; j > 0; j-- {
+					r := m.callValue(c, less, []value{conc(64, uint64(j)), conc(64, uint64(j-1))}, nil).(Scalar)
+					var lt bool
+					if r.sym == nil {
+						lt = r.c != 0
+					} else {
+						lt = m.branch(r.sym)
+					}
+					if !lt {
+						break
+					}
+					x, y := copyVal(m.sliceElem(sl, j)), copyVal(m.sliceElem(sl, j-1))
+					m.setSliceElem(sl, j, y)
+					m.setSliceElem(sl, j-1, x)
+				}
+			}
+			return nil
+		},
 		"sort.Slice": func(m *Machine, c *frame, a []value) value {
 			// insertion sort, exactly what sort.Slice does for n <= 12
 			sl := a[0].(Iface).v.(Slice)
